@@ -3,6 +3,7 @@ import Drv.ParMap
 import Drv.Names
 import Drv.Key
 import Drv.Store
+import Drv.Build
 /-! JSON-lines driver over the executable model: one request per line in, one reply per line out. -/
 open Lean
 
@@ -13,6 +14,7 @@ def dispatch (j : Json) : Drv.R Json := do
   | "names" => Drv.Names.handle j
   | "key" => Drv.Key.handle j
   | "store" => Drv.Store.handle j
+  | "build" => Drv.Build.handle j
   | _ => throw "bad_op"
 
 partial def loop (h : IO.FS.Stream) (out : IO.FS.Stream) : IO Unit := do
